@@ -37,12 +37,15 @@ def run(ctx):
         if r.chance(0.3):
             o["VacuumGap"] = 0
         per_rev = bool(o.pop("_per_rev", False))
+        # either of the two documented endings of a results file
+        oname = "o.hdf5" if i % 3 == 1 else "o.h5"
+        o["output"] = oname
         res = prog.run_inovesa("rel", o, d, os.path.join(d, "xdg"), timeout=600)
         out = dict(i=i, per_rev=per_rev, opts=o, cmd=" ".join(res["argv"]), viol=[], rows=0)
         if prog.program_outcome_key(res) or res["rc"] != 0:
             out["incon"] = "run failed: %s" % res["err"][-200:]
             return out
-        h = prog.H5(os.path.join(d, "o.h5"))
+        h = prog.H5(os.path.join(d, oname))
         P = physics.derive({k: v for k, v in o.items() if k != "output"})
         k = h["/RFKicks/data"].astype(float)
         last = P["laststep"]
